@@ -476,16 +476,19 @@ def rule_R6(ctx, f):
         ctx.saw(enc)
         cs = enc.calls_to("TextEncoder::encode_impl")
         eff = effect_calls(enc)
-        ok = len(cs) == 1 and len(eff) == 1 and peel(cs[0].args[1]) == P(2) and any(s == P(3) for s in subterms(cs[0].args[2])) and count_range(enc, [cs[0].bb]) == (1, 1) and enc.term_local(0) == cs[0].result_term()
+        fi, wi = tc.impl_param(f, "families"), tc.impl_param(f, "writer")     # positions in encode_impl's own signature (with or without `&self`)
+        ok = len(cs) == 1 and len(eff) == 1 and fi is not None and wi is not None and peel(cs[0].args[fi - 1]) == P(2) and any(s == P(3) for s in subterms(cs[0].args[wi - 1])) \
+            and count_range(enc, [cs[0].bb]) == (1, 1) and enc.term_local(0) == cs[0].result_term()
         ctx.ob(rid, "encode|delegates", ok, "encode must be exactly encode_impl(families, writer)", site=enc.raw["span"]["at"])
     eu = ctx.anchor(rid, "encode_utf8", f.body(T + "TextEncoder::encode_utf8"))
     if eu:
         ctx.saw(eu)
         cs = eu.calls_to("TextEncoder::encode_impl")
         eff = [c for c in effect_calls(eu)]
-        ok = len(cs) == 1 and len(eff) == 1 and peel(cs[0].args[1]) == P(2) and count_range(eu, [cs[0].bb]) == (1, 1)
+        fi, wi = tc.impl_param(f, "families"), tc.impl_param(f, "writer")
+        ok = len(cs) == 1 and len(eff) == 1 and fi is not None and wi is not None and peel(cs[0].args[fi - 1]) == P(2) and count_range(eu, [cs[0].bb]) == (1, 1)
         if ok:
-            w = [s for s in subterms(cs[0].args[2]) if isinstance(s, tuple) and s and s[0] == "agg" and s[2].endswith("StringBuf::StringBuf")]
+            w = [s for s in subterms(cs[0].args[wi - 1]) if isinstance(s, tuple) and s and s[0] == "agg" and s[2].endswith("StringBuf::StringBuf")]
             ok = len(w) == 1 and peel(w[0][3][0]) == P(3)
         ctx.ob(rid, "encode_utf8|delegates", ok, "encode_utf8 must be exactly encode_impl(families, StringBuf(buf)) on the caller's buffer", site=eu.raw["span"]["at"])
     es = ctx.anchor(rid, "encode_to_string", f.body(T + "TextEncoder::encode_to_string"))
@@ -533,7 +536,8 @@ def rule_R7(ctx, f):
     b = f.body(T + "TextEncoder::encode_impl")
     if not b:
         return
-    fnext = [c for c in b.calls_to("Iterator::next") if (lambda e: e and e[0] == P(2))(elem_of(("field", ("downcast", c.result_term(), "Some"), "0")))]
+    FAMS = P(tc.impl_param(f, "families") or 2)
+    fnext = [c for c in b.calls_to("Iterator::next") if (lambda e: e and e[0] == FAMS)(elem_of(("field", ("downcast", c.result_term(), "Some"), "0")))]
     ctx.ob(rid, "encode_impl|family-loop", len(fnext) == 1 and not [a for a in elem_of(("field", ("downcast", fnext[0].result_term(), "Some"), "0"))[1] if a not in ("into_iter", "iter")],
            "all families of the slice must be visited in order", site=b.raw["span"]["at"])
     if len(fnext) != 1:
